@@ -237,6 +237,31 @@ class _CT:
         raise Exception("DataFrame." + attr)
 
 
+class _CTConcrete(_CT):
+    """the chromosome table with concrete names (for configurations that must execute dictionary updates)"""
+
+    def __init__(self, w, names):
+        self.w, self.names = w, names
+
+    def pyvc_getitem(self, I, key, node):
+        if key == "name":
+            return _CTColConcrete(self.names)
+        return _CTCol(self, key)
+
+    def pyvc_setitem(self, I, key, val):
+        assert key == "name"
+
+    def pyvc_len(self, I):
+        return len(self.names)
+
+
+class _CTColConcrete(list):
+    def pyvc_getattr(self, I, attr, node):
+        if attr == "astype":
+            return LibFunc("Series.astype", lambda I, t: self)
+        raise Exception("Series." + attr)
+
+
 class _CTCol:
     def __init__(self, ct, key):
         self.ct, self.key = ct, key
@@ -305,6 +330,25 @@ class CoolerRefresh(Contract):
         yield "square", mk("square")
         yield "no-storage-mode-attribute", mk(None)
 
+        # a REFRESH of an object that already carries the caches of the table as it was before a renaming which re-used
+        # current names (swap / rotation): concrete names, so that any way of updating the old caches can be executed
+        def mk_again(old_names, new_names):
+            def f(v):
+                d = mk("symmetric-upper")(v)
+                w = d["__ghost__"]
+                w["concrete"] = list(new_names)
+                ct = _CTConcrete(w, list(new_names))
+                d["__free__"]["chroms"] = LibFunc("chroms", lambda I, g: (w["log"].append(("chroms", g)), ct)[1])
+                slf = d["self"]
+                slf.attrs["_chromids"] = {nm: i for i, nm in enumerate(old_names)}
+                slf.attrs["_chromsizes"] = ("stale lengths",)
+                slf.attrs["_info"] = {"stale": True}
+                slf.attrs["_is_symm_upper"] = True
+                return d
+            return f
+        yield "refresh-after-swap", mk_again(["a", "b", "c"], ["b", "a", "c"])
+        yield "refresh-after-rotation-and-new-name", mk_again(["a", "b", "c"], ["c", "a", "z"])
+
     def requires(self, **a):
         return [self._v.path.ghost["n"] >= 0]
 
@@ -315,6 +359,13 @@ class CoolerRefresh(Contract):
         out = {"reads-its-own-store-and-group": [op[0] for op in w["log"]] == ["open", "chroms", "info"] and w["log"][0][1] is w["store"]
                and w["log"][1][1] is w["grp"] and w["log"][2][1] is w["grp"]}
         ids = at.get("_chromids")
+        if w.get("concrete") is not None:
+            want = {nm: i for i, nm in enumerate(w["concrete"])}
+            out["ith-stored-name-maps-to-i(after-a-renaming-that-reuses-names)"] = isinstance(ids, dict) and \
+                {k: (v if isinstance(v, int) else None) for k, v in ids.items()} == want
+            out["lengths-are-the-stored-column-indexed-by-name"] = at.get("_chromsizes") == ("column", "length", "indexed by", "name")
+            out["info-is-the-groups"] = at.get("_info") is w["info"]
+            return out
         ok = isinstance(ids, ZipMapV)
         out["name-to-id-map-built"] = ok
         if ok:
